@@ -528,8 +528,10 @@ fn unit_init_case(ctx: &mut Ctx, wl: &str, case: u64, rng: &mut Rng) {
     let ct = k.cone_t();
     let n = k.dim();
     let obj = Obj::new(&k);
-    let mut z = vec![0.0; n];
-    let mut s = vec![0.0; n];
+    // the buffers handed over are whatever the previous solve left in them: half of the time garbage
+    let dirty = rng.bool(0.5);
+    let mut z: Vec<f64> = (0..n).map(|_| if dirty { rng.range(-3.0, 3.0) } else { 0.0 }).collect();
+    let mut s: Vec<f64> = (0..n).map(|_| if dirty { rng.range(-3.0, 3.0) } else { 0.0 }).collect();
     obj.unit_initialization(&mut z, &mut s);
     ctx.eval(1);
     ctx.nontrivial_n(1);
